@@ -7,6 +7,8 @@ func init() {
 		NotDecided:  "Equality of decoded and original values for all types and values (runtime values; no sound static bound in reach); pointer/slice/map composition; boundary values.",
 		Assumptions: []string{"A1", "A5"},
 		Run: func(c *Ctx) {
+			ruleStructNoLoad(c)
+			ruleCountZero(c)
 			ruleReg(c)
 			ruleMemAll(c)
 			ruleKind(c)
@@ -31,7 +33,7 @@ func init() {
 			ruleRejects(c, decodeBound(c.P), nil)
 			// the length/count rejections X.rejects accepts as bound checks reject only what cannot fit
 			ruleTightGuards(c, decodeBound(c.P), nil)
-			c.Floor("X.tightguard", 20)
+			c.Floor("X.tightguard", 22)
 			ruleVarSize(c)
 			ruleScalarStore(c)
 			ruleDispatchKnown(c)
